@@ -472,6 +472,8 @@ const STRINGS: &[&str] = &[
     "size", "first", "{{x}}", "x, y", "0", "1", "-1", "+5", "007", "123", "9223372036854775807", "9223372036854775808", "1.5", "1e3",
     "inf", "NaN", ".5", " 12", "12 ", "1_000", "2022-03-02", "+2022-03-02", "2022-3-2", "2022-02-30", "02 March 2022", "2016-02-16 10:00:00 +0100",
     "2016-02-16 10:00:00.5 +0100", "2016-02-16 10:00:00", "2016-02-16 10:00:00 +01:00", "now", "today",
+    // white space beyond ASCII (and the vertical tab, which `is_ascii_whitespace` does not count): blank is blank
+    "\u{a0}", "\u{3000}", "\u{2003} ", "\u{b}", "\u{85}", "\u{2028}\u{2029}", " \u{a0}\t", "\u{200b}", "\u{feff}", "\u{1680}", "\u{c}",
     "Today", "NOW", "yesterday", "01 Mar 2022", "1 March 2022", "March 2022", "2022-03-02T10:00:00Z", "10:00", "Tue, 02 Mar 2022",
 ];
 const KEYS: &[&str] = &["a", "b", "c", "k", "key", "size", "first", "x y", "é", "", "0", "type"];
